@@ -72,7 +72,7 @@ class GW(StoreW):
         m = self.rand_param(r.choice(ALL_MECHS))
         data = objs.rnd(r, r.choice([0, 1, 8, 15, 16, 17, 31, 32, 33, 64, 117, 127, 128, 129, 245, 255, 256, 257, 1000, 5000]))
         cap = r.choice([None, None, 0, 1, 15, 16, 17, 32, 64, 127, 128, 129, 256, 512, 6000])
-        fam = r.choice(["enc", "dec", "sign", "verify", "digest", "signrec", "wrap", "unwrap", "derive", "gen", "genpair", "attr", "obj", "find", "misc", "token", "legacy"])
+        fam = r.choice(["enc", "dec", "sign", "verify", "digest", "signrec", "wrap", "unwrap", "unwrap", "unwrap", "derive", "gen", "genpair", "attr", "obj", "find", "misc", "token", "legacy"])
         E = lambda op: self.emit(op, tid, ok=False)
         if fam in ("enc", "dec", "sign", "verify", "signrec") and r.random() < 0.5:
             # matched stratum: a mechanism that FITS a live key, so that *Init succeeds and the hostile part (data and buffer lengths) reaches the code behind it
@@ -128,6 +128,38 @@ class GW(StoreW):
                 else: E({"f": "C_DigestFinal", "s": s, "outcap": r.choice([None, 0, 16, 20, 32, 64])})
         elif fam == "wrap":
             E({"f": "C_WrapKey", "s": s, "mech": m, "wkey": o, "key": o2, "outcap": cap, "save": "hw"})
+        elif fam == "unwrap" and r.random() < 0.5 and [x for x in self.live_objs(pid) if self.info.get(x.ref, {}).get("kind") == "aes"]:
+            # matched: a real AES unwrapping key (often carrying a CKA_UNWRAP_TEMPLATE) and a fitting mechanism, so that the call gets past its first checks
+            # and compares the hostile template with the key's unwrap template
+            ks = [x for x in self.live_objs(pid) if self.info.get(x.ref, {}).get("kind") == "aes"]
+            ko = r.choice(ks); live_ = [x for x in self.live_sessions(pid) if x.tok == ko.tok] or self.live_sessions(pid)
+            if not live_: return False
+            new = self.new_obj()
+            mm, lens = r.choice([(mechs.simple(K.CKM_AES_KEY_WRAP), [24, 32, 40]), (mechs.simple(K.CKM_AES_KEY_WRAP_PAD), [16, 24, 32]), (mechs.simple(K.CKM_AES_CBC_PAD, objs.rnd(r, 16)), [16, 32, 48])])
+            blob = objs.rnd(r, r.choice(lens)) if r.random() < 0.85 else r.choice([b"", objs.rnd(r, 7), objs.rnd(r, 4096)])
+            src = blob.hex() if r.random() < 0.8 else {"from": "hw"}
+            tm = self.weird_template(new, n=r.choice([2, 4, 8]))
+            ut = [e for op_ in self.ops[tid] if op_.get("out") == ko.ref and op_.get("f") == "C_CreateObject" for e in op_["tmpl"] if e[0] == K.CKA_UNWRAP_TEMPLATE and e[1] == "t"]
+            if ut and r.random() < 0.85:
+                # the call compares the caller's template entry by entry with the key's CKA_UNWRAP_TEMPLATE: name every entry of it as stored, except ONE that
+                # comes in an ill-typed encoding (NULL with length 0, empty, wrong size) or with another value - so that the comparison gets that far
+                for _rep in range(r.randint(1, 3)):
+                    tm = [A_bytes(K.CKA_LABEL, objs.label(new)), A_ulong(K.CKA_CLASS, K.CKO_SECRET_KEY), A_ulong(K.CKA_KEY_TYPE, r.choice([K.CKK_AES, K.CKK_GENERIC_SECRET])), A_bool(K.CKA_TOKEN, False), A_bool(K.CKA_PRIVATE, False)]
+                    tm = [e for e in tm if e[0] not in [x[0] for x in ut[0][2]]]
+                    bad = r.randrange(len(ut[0][2])) if r.random() < 0.9 else -1
+                    for n_, e in enumerate(ut[0][2]):
+                        if n_ != bad: tm.append(list(e)); continue
+                        y = r.random()
+                        if y < 0.35: tm.append([e[0], "n", 0])
+                        elif y < 0.6: tm.append([e[0], "x", "", True])
+                        elif y < 0.8: tm.append([e[0], "x", objs.rnd(r, r.choice([1, 2, 7, 9])).hex()])
+                        else: tm.append([e[0], "x", (bytes([bytes.fromhex(e[2])[0] ^ 1]) + bytes.fromhex(e[2])[1:]).hex() if e[2] else "01"])
+                    r.shuffle(tm)
+                    E({"f": "C_UnwrapKey", "s": r.choice(live_).ref, "mech": mm, "ukey": ko.ref, "in": src, "tmpl": tm, "out": new, "ut_targeted": True})
+                self.info[new] = {"kind": "generic", "secret": {}}
+                return True
+            E({"f": "C_UnwrapKey", "s": r.choice(live_).ref, "mech": mm, "ukey": ko.ref, "in": src, "tmpl": tm, "out": new})
+            self.info[new] = {"kind": "generic", "secret": {}}
         elif fam == "unwrap":
             new = self.new_obj()
             blob = r.choice([b"", b"\x00", objs.rnd(r, 7), objs.rnd(r, 8), objs.rnd(r, 16), objs.rnd(r, 24), objs.rnd(r, 40), objs.rnd(r, 128), objs.rnd(r, 129), objs.rnd(r, 256), bytes(128), b"\xff" * 128])
@@ -207,6 +239,9 @@ class GW(StoreW):
                 [K.CKA_VALUE_LEN, "x", "10000000"], [K.CKA_TOKEN, "x", "0101"], A_bytes(K.CKA_START_DATE, objs.rnd(r, r.choice([0, 7, 8, 9]))), [K.CKA_ALLOWED_MECHANISMS, "x", objs.rnd(r, r.choice([0, 7, 8, 16, 20])).hex()],
                 [K.CKA_WRAP_TEMPLATE, "t", [A_bool(K.CKA_EXTRACTABLE, True), A_bytes(K.CKA_LABEL, objs.rnd(r, 4))][: r.randint(0, 2)]], [K.CKA_UNWRAP_TEMPLATE, "x", objs.rnd(r, r.choice([1, 23, 24, 25])).hex()],
                 [0x7FFFFFF2, "x", "00"], A_bool(K.CKA_DERIVE, True), A_bool(K.CKA_ENCRYPT, True), A_bool(K.CKA_SIGN, True), A_bool(K.CKA_WRAP, True), A_bytes(K.CKA_CHECK_VALUE, objs.rnd(r, r.choice([0, 2, 3, 4])))]
+        # ill-typed encodings of fixed-size attributes: NULL with length 0, a non-NULL pointer with length 0, wrong sizes
+        for ty in (K.CKA_EXTRACTABLE, K.CKA_SENSITIVE, K.CKA_ENCRYPT, K.CKA_DECRYPT, K.CKA_MODIFIABLE, K.CKA_KEY_TYPE, K.CKA_CLASS, K.CKA_VALUE_LEN):
+            pool += [[ty, "n", 0], [ty, "x", "", True], [ty, "x", objs.rnd(r, r.choice([2, 3, 7, 9])).hex()]]
         k = n if n is not None else r.choice([0, 1, 2, 4, 6, 10])
         for _ in range(k): t.append(r.choice(pool))
         r.shuffle(t)
@@ -320,10 +355,12 @@ def gen(seed, tier, index):
     g = GW(seed, "C17", profile=mode, ntok=(1 if index % 2 else 2))
     r = g.r
     g.begin()
+    if mode == "hostile": g.template_p = 0.7      # keys with wrap / unwrap templates: the calls that compare templates need them
     for t in g.toks():
         g.s_open(tok=t, rw=True); g.s_login(user=K.CKU_USER, tok=t)
     for kd in r.sample(objs.KINDS, r.choice([3, 5, 9])):
         g.s_create(kind=kd, token=r.random() < 0.7)
+    if mode == "hostile": g.s_create(kind="aes", token=r.random() < 0.5)
     n = r.choice([6, 10, 16, 24]) if tier == "quick" else r.choice([10, 20, 40])
     if mode == "corrupt":
         g.emit({"act": "fsbackup"})
